@@ -63,6 +63,7 @@ VARIABLES tag,    \* the card: kind, ck, rc, wcnt, ext, blk, locked, keychg, nau
           last,   \* outcome of the last completed operation (what the caller observed)
           prot    \* key of the last successful protect()
 
+InFlightPc == pc \in {"a_chk", "s_chk", "r_chk", "n_chk", "s_wst", "w_wr"}
 vars == <<tag, rd, pc, op, resp, orig, tamp, rep, hist, nadv, nops, nchal, last, prot>>
 
 NoOp   == [name |-> "none", pw |-> NoPw, bs |-> <<>>, b |-> "-", v |-> "-", outer |-> "none", rc |-> 0, wres |-> {}]
@@ -140,7 +141,7 @@ AuthFinish(out, res, tg, r, tm) ==
 
 \* tt3_sony.py:625-636  compare the received MAC with generate_mac(data, sk, iv=rc1)
 AChk(out) ==
-    /\ pc = "a_chk"
+    /\ pc = "a_chk" /\ resp.k # "badcount"
     /\ LET sk == <<Kdf(op.pw), op.rc>>
            ok == resp.hm /\ resp.m = MacOf(sk, op.rc, resp.d)
            tm == tamp \/ resp # orig
@@ -164,7 +165,7 @@ TagAccepts(w, b, v) == /\ MacWOf(rd.sk, rd.iv, w, b, v) = MacWOf(TagSK, tag.rc, 
 
 \* write_with_mac(b"\x01" + 15*b"\0", 0x92): external authentication         (tt3_sony.py:919)
 SWriteState(out) ==
-    /\ pc = "s_wst"
+    /\ pc = "s_wst" /\ resp.k # "badcount"
     /\ LET tm == tamp \/ resp # orig
            ok == TagAccepts(resp.d[1], "state", ExtVal(TRUE)) IN
          /\ tamp' = tm
@@ -189,7 +190,7 @@ RdMacOk == resp.hm /\ resp.m = MacOf(rd.sk, rd.iv, resp.d)
 First1(v) == v.f = 0 /\ (v.v = "ext1" \/ (v.v = "id" /\ tag.id1))
 \* a failed MAC check makes read_with_mac return None
 SChk(out) ==
-    /\ pc = "s_chk"
+    /\ pc = "s_chk" /\ resp.k # "badcount"
     /\ LET tm == tamp \/ resp # orig
            good == RdMacOk /\ First1(resp.d[1])
            r1 == [rd EXCEPT !.auth = good] IN
@@ -211,13 +212,24 @@ NPwd ==
 
 \* return rsp == key[4:6]  (a NAK / timeout gives False)                      (tt2_nxp.py:477-479)
 NChk(out) ==
-    /\ pc = "n_chk"
+    /\ pc = "n_chk" /\ resp.k # "badcount"
     /\ LET ok == resp.k = "data" /\ resp.d = <<DV(Kdf(op.pw)[2])>>
            tm == tamp \/ resp # orig
            r1 == [rd EXCEPT !.auth = ok] IN
          /\ tamp' = tm /\ rd' = r1
          /\ AuthFinish(out, IF ok THEN "True" ELSE "False", tag, r1, tm)
     /\ UNCHANGED <<tag, op, rep, hist, nadv, nchal>>
+
+\* A Read Without Encryption response whose block count is not the number of blocks asked for (fewer, down to
+\* none, or more; length byte and data consistent with the count): Type3Tag.read_without_encryption raises
+\* Type3TagCommandError(DATA_SIZE_ERROR) (tt3.py:596), whatever MAC-protected read it was; the NDEF reader turns
+\* that into "no NDEF".  Never True, never data.
+BadCountChk(out) ==
+    /\ InFlightPc /\ resp.k = "badcount"
+    /\ tamp' = TRUE
+    /\ out = (IF op.name = "ndef" THEN "None" ELSE "TagCommandError")
+    /\ Finish(out, <<>>, tag, rd, TRUE)
+    /\ UNCHANGED <<tag, rd, op, rep, hist, nadv, nchal, prot>>
 
 \* ---- read_with_mac(*blocks) ------------------------------------------------------------------
 StartRead(bs) ==
@@ -233,7 +245,7 @@ RRead ==
     /\ UNCHANGED <<tag, rd, op, tamp, rep, nadv, nchal, prot>>
 
 RChk(out) ==
-    /\ pc = "r_chk" /\ op.name = "read"
+    /\ pc = "r_chk" /\ op.name = "read" /\ resp.k # "badcount"
     /\ tamp' = (tamp \/ resp # orig)
     /\ out = (IF RdMacOk THEN "Data" ELSE "None")
     /\ Finish(out, IF RdMacOk THEN resp.d ELSE <<>>, tag, rd, tamp')
@@ -250,7 +262,7 @@ StartNdef ==
 
 \* a failed MAC check makes read_with_mac return None, which the NDEF reader must turn into "no NDEF"
 NChkRead(out) ==
-    /\ pc = "r_chk" /\ op.name = "ndef"
+    /\ pc = "r_chk" /\ op.name = "ndef" /\ resp.k # "badcount"
     /\ tamp' = (tamp \/ resp # orig)
     /\ IF ~RdMacOk
        THEN /\ out = "None" \/ ("ndef_none_subscript" \in Defects /\ out = "TypeError")   \* sum(None[0:14]) / data += None
@@ -267,7 +279,7 @@ StartWrite(b, v) ==
     /\ Goto("s_rwc") /\ UNCHANGED rd
 
 WWrite(out) ==
-    /\ pc = "w_wr"
+    /\ pc = "w_wr" /\ resp.k # "badcount"
     /\ LET tm == tamp \/ resp # orig
            ok == TagAccepts(resp.d[1], op.b, DV(op.v))
            t1 == IF ok THEN [tag EXCEPT !.blk[op.b] = DV(op.v), !.wcnt = @ + 1] ELSE tag IN
@@ -319,27 +331,32 @@ PWriteMC(out) ==
     /\ UNCHANGED <<rd, op, tamp, rep, hist, nadv, nchal>>
 
 \* ---- the adversary on the channel (responses of authenticate / read_with_mac / write_with_mac) --
-InFlight == pc \in {"a_chk", "s_chk", "r_chk", "n_chk", "s_wst", "w_wr"}
+InFlight == InFlightPc
 AdvOk(kind) == InFlight /\ nadv < MaxAdv /\ op.outer # "protect" /\ kind \in AdvKinds
 Adv(r) == resp' = r /\ nadv' = nadv + 1
           /\ UNCHANGED <<tag, rd, pc, op, orig, tamp, hist, nops, nchal, last, prot>>
 
 AdvFlipData(i) == /\ AdvOk("flipdata") /\ resp.k = "data" /\ i \in 1..Len(resp.d)
                   /\ Adv([resp EXCEPT !.d[i] = FlipV(@)]) /\ UNCHANGED rep
-AdvFlipMac     == /\ AdvOk("flipmac") /\ resp.hm
+AdvFlipMac     == /\ AdvOk("flipmac") /\ resp.hm /\ resp.k = "data"
                   /\ Adv([resp EXCEPT !.m = FlipV(@)]) /\ UNCHANGED rep
 AdvSwap        == /\ AdvOk("swap") /\ resp.k = "data" /\ Len(resp.d) = 2
                   /\ Adv([resp EXCEPT !.d = <<resp.d[2], resp.d[1]>>]) /\ UNCHANGED rep
-AdvPad         == /\ AdvOk("pad") /\ resp.hm            \* bytes 8..15 of the MAC block: not part of the MAC
+AdvPad         == /\ AdvOk("pad") /\ resp.hm /\ resp.k = "data"   \* bytes 8..15 of the MAC block: not part of the MAC
                   /\ Adv(resp) /\ UNCHANGED rep
+\* structural: the response announces m blocks instead of the ones asked for (also while protect() runs its
+\* embedded authentication)
+AdvCount(m)    == /\ InFlight /\ nadv < MaxAdv /\ "count" \in AdvKinds /\ Felica /\ resp.k = "data"
+                  /\ m # Len(resp.d) + (IF resp.hm THEN 1 ELSE 0)
+                  /\ Adv([resp EXCEPT !.k = "badcount"]) /\ UNCHANGED rep
 Fits(h)        == IF resp.k = "nak" THEN ~h.hm /\ Len(h.d) = 1
                   ELSE h.hm = resp.hm /\ Len(h.d) = Len(resp.d)
-AdvReplay(h)   == /\ AdvOk("replay") /\ h \in hist /\ h # resp /\ Fits(h) /\ pc \notin {"s_wst", "w_wr"}
+AdvReplay(h)   == /\ AdvOk("replay") /\ resp.k # "badcount" /\ h \in hist /\ h # resp /\ Fits(h) /\ pc \notin {"s_wst", "w_wr"}
                   /\ op.name # "ndef"      \* (a replayed block is parsed as attribute data: outside the model)
                   /\ Adv(h) /\ rep' = TRUE
 
 Outcomes == {"cont", "True", "False", "None", "Data", "TagCommandError", "TypeError", "AttributeError"}
-Check(out) == AChk(out) \/ SChk(out) \/ NChk(out) \/ RChk(out) \/ NChkRead(out) \/ SWriteState(out) \/ WWrite(out)
+Check(out) == BadCountChk(out) \/ AChk(out) \/ SChk(out) \/ NChk(out) \/ RChk(out) \/ NChkRead(out) \/ SWriteState(out) \/ WWrite(out)
               \/ PReadCfg(out) \/ PWriteKey(out) \/ PWriteMC(out)
 Command == AWriteRC \/ AReadId \/ SReadWcnt \/ SReadState \/ NPwd \/ RRead
 
@@ -354,6 +371,7 @@ Next ==
     \/ \E out \in Outcomes : Check(out)
     \/ \E i \in 1..2 : AdvFlipData(i)
     \/ AdvFlipMac \/ AdvSwap \/ AdvPad
+    \/ \E m \in 0..4 : AdvCount(m)
     \/ \E h \in hist : AdvReplay(h)
 
 Spec == Init /\ [][Next]_vars
@@ -412,6 +430,9 @@ W_ProtectOther    == ~(last.op = "auth" /\ last.res = "False" /\ prot.set /\ ~la
 W_NdefData        == ~(last.op = "ndef" /\ last.res = "Data")
 W_NdefNoneTamper  == ~(last.op = "ndef" /\ last.res = "None" /\ last.tamp /\ op.bs = <<MsgBlock>>)
 W_NdefTypeError   == ~(last.op = "ndef" /\ last.res = "TypeError")
+W_BadCountAuth    == ~(last.op = "auth" /\ last.res = "TagCommandError" /\ last.kind = "lite")
+W_BadCountRead    == ~(last.op = "read" /\ last.res = "TagCommandError")
+W_BadCountProtect == ~(last.op = "protect" /\ last.res = "TagCommandError" /\ last.tamp)
 W_WriteOk         == ~(last.op = "write" /\ last.res = "None")
 W_WriteRefused    == ~(last.op = "write" /\ last.res = "TagCommandError")
 W_WriteNeedsAuth  == ~(last.op = "write" /\ last.res = "TagCommandError" /\ ~last.tamp /\ last.sk = last.tsk /\ last.iv = last.trc)
